@@ -1554,6 +1554,10 @@ pub(crate) mod verif_js_op {
     //@ desc="parse_float_string on all 4-character strings of the alphabet (\"1e5.\", \"12px\", \"1e+1\", ...)"
     pfs_harness!(k_c10_pfs_4, 4);
 
+    const ALPHA_RADIX_SMALL: [u8; 6] = [b'0', b'x', b'b', b'1', b'+', b'g'];
+    //@ob name=C07.str_to_number.radix4 harness=k_c07_s2n_radix4 props=C07,C09,C10 strength=bounded bound="every 4-character string over {0 x b 1 + g} (e.g. \"0x+1\", \"0b11\", \"0x1g\")" fns=js_op::str_to_number stubs=1 replay=generic timeout=400
+    //@ desc="radix literals: digits only after the prefix (no sign), every digit valid for the radix"
+    s2n_harness!(k_c07_s2n_radix4, 4, ALPHA_RADIX_SMALL);
 //@GENERATED-S2N
     //@ob name=C07.str_to_number.num.0 harness=k_c07_s2n_num_0 props=C07,C09,C10 tier=quick strength=bounded bound="every string of exactly 0 characters over the alphabet {0 1 9 . - + e E space tab x a}" fns=js_op::str_to_number stubs=1 replay=generic timeout=300
     //@ desc="str_to_number(s) == ECMAScript StringToNumber(s): surrounding whitespace ignored, \"\" is 0, only `Infinity` spelled that way, 0x/0o/0b literals honoured (unsigned), decimal literals by from_str (assumed contract), anything else non-numeric"
